@@ -2,8 +2,8 @@
 import hist_common as H
 
 VFILES = ["props/C17.v"]
-ASSUMPTIONS = ["GIL: each OrderedDict primitive inside ParseCache.__getitem__/__setitem__ is atomic; the harness pre-empts threads only at cache-operation boundaries (plus a free-running stress with a tiny switch interval)",
-               "partial: free-threaded builds, pre-emption inside __getitem__/__setitem__, the WeakSet of live caches under GC are not modelled"]
+ASSUMPTIONS = ["CPython: one C-level OrderedDict operation on (str, int) keys is atomic under the GIL (the micro-step model's unit); the global epoch and the size limits do not change while requests run",
+               "not modelled: free-threaded builds, RecursionError, the WeakSet of live caches under GC, __delitem__/__iter__/__len__/clear_caches concurrent with requests"]
 
 
 def run(ctx):
